@@ -388,7 +388,7 @@ dgsitrf(superlu_options_t *options, SuperMatrix *A, int relax, int panel_size,
 	    /* Determine the union of the row structure of the snode */
 	    if ( (*info = ilu_dsnode_dfs(jcol, kcol, asub, xa_begin, xa_end,
 					 marker, Glu)) != 0 )
-		return;
+		goto nomem_exit;
 
 	    nextu    = xusub[jcol];
 	    nextlu   = xlusup[jcol];
@@ -398,7 +398,7 @@ dgsitrf(superlu_options_t *options, SuperMatrix *A, int relax, int panel_size,
 	    nzlumax = Glu->nzlumax;
 	    while ( new_next > nzlumax ) {
 		if ((*info = dLUMemXpand(jcol, nextlu, LUSUP, &nzlumax, Glu)))
-		    return;
+		    goto nomem_exit;
 	    }
 
 	    for (icol = jcol; icol <= kcol; icol++) {
@@ -479,12 +479,12 @@ dgsitrf(superlu_options_t *options, SuperMatrix *A, int relax, int panel_size,
 		if ((*info = ilu_dcolumn_dfs(m, jj, perm_r, &nseg,
 					     &panel_lsub[k], segrep, &repfnz[k],
 					     marker, parent, xplore, Glu)))
-		    return;
+		    goto nomem_exit;
 
 		/* Numeric updates */
 		if ((*info = dcolumn_bmod(jj, (nseg - nseg1), &dense[k],
 					  tempv, &segrep[nseg1], &repfnz[k],
-					  jcol, Glu, stat)) != 0) return;
+					  jcol, Glu, stat)) != 0) goto nomem_exit;
 
 		/* Make a fill-in position if the column is entirely zero */
 		if (xlsub[jj + 1] == xlsub[jj]) {
@@ -498,7 +498,7 @@ dgsitrf(superlu_options_t *options, SuperMatrix *A, int relax, int panel_size,
 		    nextl = xlsub[jj] + 1;
 		    if (nextl >= nzlmax) {
 			int error = dLUMemXpand(jj, nextl, LSUB, &nzlmax, Glu);
-			if (error) { *info = error; return; }
+			if (error) { *info = error; goto nomem_exit; }
 			lsub = Glu->lsub;
 		    }
 		    xlsub[jj + 1]++;
@@ -506,7 +506,7 @@ dgsitrf(superlu_options_t *options, SuperMatrix *A, int relax, int panel_size,
 		    if (xlusup[jj] >= Glu->nzlumax) { /* room for the fill-in value */
 			int_t nzlumax = Glu->nzlumax;
 			int error = dLUMemXpand(jj, xlusup[jj], LUSUP, &nzlumax, Glu);
-			if (error) { *info = error; return; }
+			if (error) { *info = error; goto nomem_exit; }
 			lsub = Glu->lsub;
 		    }
 		    xlusup[jj + 1]++;
@@ -541,7 +541,7 @@ dgsitrf(superlu_options_t *options, SuperMatrix *A, int relax, int panel_size,
 					       milu, amax[jj - jcol] * tol_U,
 					       quota, &drop_sum, &nnzUj, Glu,
 					       dwork2)) != 0)
-		    return;
+		    goto nomem_exit;
 
 		/* Reset the dropping threshold if required */
 		if (drop_rule & DROP_DYNAMIC) {
@@ -673,6 +673,43 @@ dgsitrf(superlu_options_t *options, SuperMatrix *A, int relax, int panel_size,
     ops[FACT] += ops[TRSV] + ops[GEMV];
     stat->expansions = --(Glu->num_expansions);
 
+    if ( iperm_r_allocated ) SUPERLU_FREE (iperm_r);
+    SUPERLU_FREE (iperm_c);
+    SUPERLU_FREE (relax_end);
+    SUPERLU_FREE (swap);
+    SUPERLU_FREE (iswap);
+    SUPERLU_FREE (relax_fsupc);
+    SUPERLU_FREE (amax);
+    if ( dwork2 ) SUPERLU_FREE (dwork2);
+
+    return;
+
+nomem_exit:
+    /* A storage expansion failed (*info > ncol): L and U are not created;
+       release everything this call holds. */
+    if ( Glu->MemModel == SYSTEM ) {
+	if ( fact == SamePattern_SameRowPerm ) {
+	    /* The arrays belong to the caller's L and U; expansions that
+	       succeeded before the failure may have moved them. */
+	    ((SCformat *)L->Store)->nzval = (double *) Glu->lusup;
+	    ((SCformat *)L->Store)->rowind = Glu->lsub;
+	    ((NCformat *)U->Store)->nzval = (double *) Glu->ucol;
+	    ((NCformat *)U->Store)->rowind = Glu->usub;
+	} else {
+	    SUPERLU_FREE (Glu->lusup);
+	    SUPERLU_FREE (Glu->ucol);
+	    SUPERLU_FREE (Glu->lsub);
+	    SUPERLU_FREE (Glu->usub);
+	    SUPERLU_FREE (Glu->xsup);
+	    SUPERLU_FREE (Glu->supno);
+	    SUPERLU_FREE (Glu->xlsub);
+	    SUPERLU_FREE (Glu->xlusup);
+	    SUPERLU_FREE (Glu->xusub);
+	}
+    }
+    dLUWorkFree(iwork, dwork, Glu);
+    SUPERLU_FREE (xplore);
+    SUPERLU_FREE (marker_relax);
     if ( iperm_r_allocated ) SUPERLU_FREE (iperm_r);
     SUPERLU_FREE (iperm_c);
     SUPERLU_FREE (relax_end);
